@@ -259,6 +259,7 @@ func NewGrafanaNet(key string, matcher matcher.Matcher, cfg GrafanaNetConfig) (R
 
 // run manages incoming and outgoing data for a shard
 func (route *GrafanaNet) run(in chan []byte) {
+	defer route.wg.Done()
 	var metrics []*schema.MetricData
 	buffer := new(bytes.Buffer)
 
@@ -287,11 +288,28 @@ func (route *GrafanaNet) run(in chan []byte) {
 			timer.Reset(route.Cfg.FlushMaxWait)
 			metrics = route.retryFlush(metrics, buffer)
 		case <-route.shutdown:
-			metrics = route.retryFlush(metrics, buffer)
-			return
+			// flush what is still queued for this shard, then the partial batch
+			for {
+				select {
+				case buf := <-in:
+					route.numBuffered.Dec(1)
+					md, err := parseMetric(buf, route.schemas, route.Cfg.OrgID)
+					if err != nil {
+						log.Errorf("RouteGrafanaNet: parseMetric failed: %s. skipping metric", err)
+						continue
+					}
+					md.SetId()
+					metrics = append(metrics, md)
+					if len(metrics) == route.Cfg.FlushMaxNum {
+						metrics = route.retryFlush(metrics, buffer)
+					}
+				default:
+					route.retryFlush(metrics, buffer)
+					return
+				}
+			}
 		}
 	}
-	route.wg.Done()
 }
 
 func (route *GrafanaNet) retryFlush(metrics []*schema.MetricData, buffer *bytes.Buffer) []*schema.MetricData {
@@ -466,7 +484,8 @@ func (route *GrafanaNet) Shutdown() error {
 	//conf := route.config.Load().(Config)
 
 	// trigger all of our queues to be flushed to the tsdb-gw
-	route.shutdown <- struct{}{}
+	// (closing the channel is seen by every worker, a single send only by one of them)
+	close(route.shutdown)
 
 	// wait for all tsdb-gw writes to complete.
 	route.wg.Wait()
